@@ -21,6 +21,8 @@ TOKSETS = {
 
 
 def real(t):
+    if t == "E_":
+        return "\\ "        # the escaped blank: the symbol ' '
     return "\\" + t[1] if len(t) == 2 and t[0] == "E" and t[1] in SPECIAL else t
 
 
@@ -86,7 +88,7 @@ def generate(tier, seed, work, stats):
     for i, ts in enumerate(seqs):
         if tier == "quick" and (i + seed) % 3:
             continue
-        cases.append(dict(kind="text", toks=ts, style="spaced" if i % 2 else "minimal", alph=["a", "b", "(", ")", "zz"], L=3))
+        cases.append(dict(kind="text", toks=ts, style="spaced" if i % 2 else "minimal", alph=["a", "b", "(", ")", " ", "zz"], L=3))
     for _ in range(600 if tier == "quick" else 6000):
         (a, alph), (b, _) = rnd.choice(wf_pool), rnd.choice(wf_pool)
         cases.append(dict(kind="comb", toksA=a, toksB=b, alph=sorted(set(alph) | set(_)), L=3, aged=bool(len(cases) % 2)))
